@@ -216,6 +216,11 @@ func checkC05(r *run, c *ExtSeqCase) (CaseInfo, error) {
 				ci.Nontrivial = true
 			}
 			pkt := append(clone(b), 0xAB, 0xCD)
+			if op.Seed&2 == 2 {
+				// header-only round trip: nothing follows the header on the wire
+				pkt = clone(b)
+				ci.class("wire-header-only")
+			}
 			var h2 rtp.Header
 			if _, err := h2.Unmarshal(pkt); err != nil {
 				return ci, failf("step %d: Unmarshal rejects Marshal output %s: %v (model %s)", i, hx(pkt), err, model)
@@ -285,7 +290,7 @@ func genExtSeqCase(t *rapid.T) *ExtSeqCase {
 				op.Seed = rapid.Uint64().Draw(t, "seed")
 			}
 		case "wire":
-			op.Seed = uint64(rapid.IntRange(0, 1).Draw(t, "continue"))
+			op.Seed = uint64(rapid.IntRange(0, 3).Draw(t, "continue")) // bit 0: continue on the decoded header, bit 1: header-only wire image
 		}
 		c.Ops = append(c.Ops, op)
 	}
